@@ -447,6 +447,24 @@ func isPlainBufParam(v ssa.Value) bool {
 	}
 }
 
+// RulePanicIn: the panic inventory restricted to the sites of one package (the codec, for the property that says
+// encoding and decoding never panic for any declarable layout).
+func RulePanicIn(r *Report, p *Program, tier string, rel string, mins map[string]int) {
+	tmp := NewReport(r.Property, r.Tier)
+	RulePanic(tmp, p, "quick", wireReachableTypes(p))
+	for id, doc := range tmp.ruleDoc {
+		if m, ok := mins[id]; ok {
+			r.Rule(id, doc+" [sites of "+rel+"]", m)
+		}
+	}
+	for _, o := range tmp.Obs {
+		if _, ok := mins[o.Rule]; ok && strings.HasPrefix(o.Pos, rel+"/") {
+			r.add(o)
+		}
+	}
+	r.fatal = append(r.fatal, tmp.fatal...)
+}
+
 func RulePanic(r *Report, p *Program, tier string, wireTypes map[string]bool) {
 	lintProgram = p
 	r.Rule("P1", "every index/slice expression is discharged: constant index inside a constant length, dominating length guard, loop bound, message-buffer access under the 64-byte/offset rules, read count of the same buffer, or minimum text width", 60)
